@@ -168,6 +168,23 @@ def run(tier, seed, t0):
     items = run_cases(exe, [case_line('I', 'sch-items', '-', '-')]).get('I')
     if items is None or items.startswith('harness-error') or items == 'panic':
         raise CheckBroken('sch-items failed: %r' % (items,))
+    if tier != 'quick':
+        # the same items in the RELEASE profile: `assert_eq!` -> `debug_assert_eq!` in add_definition (the conflicting
+        # redefinition panic), overflow checks and other debug-only behaviour must not be what the verdicts rest on
+        rexe, rlog = ensure_harness('std-strict', release=True)
+        if rexe is None:
+            disagreements.append({'what': 'release build of the harness failed: ' + rlog[-300:]})
+        else:
+            ritems = run_cases(rexe, [case_line('I', 'sch-items', '-', '-')]).get('I') or ''
+            ra, rb = items.split(';;'), ritems.split(';;')
+            stats['release_profile_items'] = len(rb)
+            for x, y in zip(ra, rb):
+                if x != y:
+                    failures.append({'class': 'release-differs', 'key': x.split('|')[0],
+                                     'what': 'derived item %s: the schema / panic verdict differs between the dev and the release profile: %s vs %s'
+                                             % (x.split('|')[0], x[:300], y[:300])})
+            if len(ra) != len(rb):
+                disagreements.append({'what': 'sch-items: %d records in the dev build, %d in the release build' % (len(ra), len(rb))})
     item_cases = []
     for rec in items.split(';;'):
         f = rec.split('|')
